@@ -751,6 +751,9 @@ class Interp:
                 lo = (mask & -mask).bit_length() - 1
                 w = (mask >> lo).bit_length()
                 if (mask >> lo) == (1 << w) - 1:
+                    iv = self.ctx.interval(simp(A)) if lo == 0 else None
+                    if iv is not None and iv[0] is not None and iv[1] is not None and iv[0] >= 0 and iv[1] <= mask:
+                        return a  # already within the mask (known from the ranges of its digits; no solver call)
                     return simp(self.ctx.mod(self.ctx.div(A, 2**lo), 2**w) * (2**lo))
                 # general non-negative mask: sum over set bits
                 tot = 0
@@ -1342,7 +1345,7 @@ class Interp:
                 i = R._add(i, n)
             left, rest = R.split_at(self.ctx, obj.rope, i)
             _, right = R.split_at(self.ctx, rest, 1)
-            obj.rope = left + R.Rope([R.IntSeg(val, 1, "little")]) + right
+            obj.rope = left + R.Rope([R.IntSeg(val, 1, "little", True)]) + right
             return
         if isinstance(obj, list):
             i = self.as_int(idx)
